@@ -524,6 +524,7 @@ def step (st : State) : Op → State × Obs
     (({ st with src := s' }).put id .backup a,
      .snapshot (archiveNames a) (listing s'.files) (blockListing s'.files) s'.dump)
   | .export id a e =>
+    if a > e then (st, .badOp) else
     match st.src.export a e with
     | (s', .error x) => ({ st with src := s' }, .exportErr x (listing s'.files) (blockListing s'.files))
     | (s', .ok ar) =>
